@@ -29,7 +29,7 @@ pub fn prop() -> HistProp {
             p
         },
         cfgs: cfg_strategy,
-        quick: 3000,
+        quick: 5000,
         thorough: 40000,
         mk: |_, _, _| Box::new(C16 { allowance_op: false, hub_burn: false }),
         extra: None,
